@@ -720,13 +720,16 @@ func fix128BigIntToFix64(
 	bigInt *big.Int,
 ) Fix64Value {
 
-	if bigInt.Cmp(fixedpoint.Fix64TypeMaxScaledTo128) > 0 {
+	// Truncate the excess fractional digits toward zero first,
+	// then check that the result fits into the target type.
+	bigInt = bigInt.Quo(bigInt, fixedpoint.Fix64ToFix128FactorAsBigInt)
+
+	if bigInt.Cmp(fixedpoint.Fix64TypeMax) > 0 {
 		panic(&OverflowError{})
-	} else if bigInt.Cmp(fixedpoint.Fix64TypeMinScaledTo128) < 0 {
+	} else if bigInt.Cmp(fixedpoint.Fix64TypeMin) < 0 {
 		panic(&UnderflowError{})
 	}
 
-	bigInt = bigInt.Div(bigInt, fixedpoint.Fix64ToFix128FactorAsBigInt)
 	return NewFix64Value(
 		memoryGauge,
 		func() int64 {
